@@ -56,6 +56,7 @@ type World struct {
 	ErrTypes  []string
 	regexMu   sync.Mutex
 	regexes   map[string]*RegexInfo
+	Names     map[string]*fnNames // names recorded from the unchanged tree (names.go)
 }
 
 func LoadWorld(repo string) (*World, error) {
